@@ -272,7 +272,13 @@ PROP = Prop(
     id="C02",
     title="Evaluation gives every node type its standard meaning",
     lean_targets=["PV.Properties.C02"],
-    theorems=[],
+    theorems=[
+        "PV.C02.evalG_eq_den", "PV.C02.history_eq_den", "PV.C02.plain_eq_cached",
+        "PV.C02.error_never_value", "PV.C02.if_lazy_then", "PV.C02.if_lazy_else",
+        "PV.C02.unknown_var_named", "PV.C02.cse_means_child", "PV.C02.evalG_eq_den_simple",
+        "PV.universe_simple",
+    ],
+    witnesses=["PV.C02.cached_list_raises"],
     streams=[PyNumStream(), DenStream(), HistStream()],
     trusted_base=[
         "Lean 4.33 kernel; axioms propext, Classical.choice, Quot.sound only",
@@ -281,6 +287,20 @@ PROP = Prop(
         "harness/sexp.py serialisation and harness/props/c02.py correspondence",
         "floats/complex are outside the exact model (model abstains); numpy arrays not modelled",
     ],
+    level_text="Lean theorems (unbounded in tree depth, arity and history length): the evaluator as "
+               "coded, plain or memoizing, with its CSE cache, returns exactly the compositional "
+               "denotation `den` (value or error) after any history of calls; conditionals are "
+               "branch-lazy; unknown variables are named. The model is tied to the code by an "
+               "exhaustive CPython operator box and by ~27k random/exhaustive-small evaluations "
+               "per quick run through all four entry points.",
+    level_note="Trusted: Lean kernel (+ propext, Classical.choice, Quot.sound); PyNum as a model of "
+               "CPython int/bool/Fraction arithmetic (validated exhaustively on a value box each "
+               "run); the S-expression harness. Floats/complex/numpy are outside the exact model "
+               "(model abstains). Theorems assume a coherent universe (no two `==`-but-different "
+               "subterms such as 1 vs True in one history) and no Python lists (known finding).",
+    technique="Lean 4 simulation proof (stateful evaluator refines denotation) + differential "
+              "correspondence of the compiled model against EvaluationMapper/CachedEvaluationMapper",
+    design_ref="DESIGN.md §4 C02",
     assumptions=[
         "the environment is not mutated during an evaluator's lifetime",
         "environment functions are pure (uninterpreted constructors in the model)",
